@@ -48,6 +48,7 @@ def one(job):
         except SystemExit:
             return pname, spec["name"], "does-not-compile", None
         fired = set()
+        known = {k["key"] for k in engine.load_known() if k.get("status") == "known"}
         for pr in plist:
             if pr not in props.PROPS:
                 continue
@@ -58,7 +59,7 @@ def one(job):
             except Exception as e:
                 fired.add("CRASH:%r" % (e,))
                 continue
-            fired |= {o["rule"] for o in ctx.obl if o["status"] == "violation"}
+            fired |= {o["rule"] for o in ctx.obl if o["status"] == "violation" and o["key"] not in known}
         return pname, spec["name"], "fired" if fired else "MISSED", sorted(fired)
     finally:
         shutil.rmtree(tmp, ignore_errors=True)
